@@ -29,6 +29,14 @@ func (i *handler) serveDefaults(ctx context.Context, w http.ResponseWriter, r *h
 
 	switch r.Method {
 	case http.MethodHead:
+		// A malformed Range header is rejected the same way GET rejects it,
+		// so that HEAD and GET answer with the same status.
+		if rangeHeader := r.Header.Get("Range"); rangeHeader != "" {
+			if _, err = parseRangeWithoutLength(rangeHeader); err != nil {
+				i.webError(w, r, fmt.Errorf("invalid range request: %w", err), http.StatusBadRequest)
+				return false
+			}
+		}
 		pathMetadata, headResp, err = i.backend.Head(ctx, rq.mostlyResolvedPath())
 		if err != nil {
 			if isWebRequest(rq.responseFormat) {
